@@ -373,6 +373,7 @@ class WMTS100RestFeatureInfoRequest(TileRequest):
     """
     xml_exception_handler = WMTS100ExceptionHandler
     request_handler_name = 'featureinfo'
+    origin = 'nw'
     all_levels = True  # TileMatrix identifiers are the levels of the grid
 
     def __init__(self, request, req_vars, url_converter=None):
